@@ -31,3 +31,49 @@ def gen(tier, rng):
                 yield f"c04.u.sbb {n} {hx(a)} {hx(b)} {hx(c)}"
             for op in ["wrapping_add", "wrapping_sub", "saturating_add", "saturating_sub", "checked_add", "checked_sub"]:
                 yield f"c04.u.{op} {n} {hx(a)} {hx(b)}"
+
+    # ---- remaining forms: negation, operators, Wrapping / Checked, Limb forms, boxed (any two precisions)
+    for n in widths:
+        m = 1 << (64 * n)
+        vals = [0, 1, m - 1, m // 2, m // 2 - 1, m - 2] + [value(rng, n) for _ in range(reps // 3)]
+        for a in vals:
+            for c in (0, 1):
+                yield f"c04.u.neg {n} {hx(a)} {c}"
+        trip = [(m - 1, 1, 0), (m - 1, 0, 1), (0, 0, 1), (m - 1, 1, 1), (m // 2, m // 2, 1), (1, 2, 3), (0, 0, 0)]
+        for _ in range(reps // 2):
+            a, b = pair(rng, n)
+            trip.append((a, b, rng.choice([0, 1, a, b, value(rng, n)])))
+        for a, b, c in trip:
+            yield f"c04.u.op_add {n} {hx(a)} {hx(b)}"
+            yield f"c04.u.op_sub {n} {hx(a)} {hx(b)}"
+            yield f"c04.u.wrapping_chain {n} {hx(a)} {hx(b)} {hx(c)}"
+            yield f"c04.u.checked_chain {n} {hx(a)} {hx(b)} {hx(c)}"
+    for a in EDGE_WORDS:
+        for b in EDGE_WORDS:
+            yield f"c04.l.forms {hx(a)} {hx(b)}"
+            yield f"c04.l.op_add {hx(a)} {hx(b)}"
+            yield f"c04.l.op_sub {hx(a)} {hx(b)}"
+    for _ in range(reps * 5):
+        a, b = limb_choice(rng), limb_choice(rng)
+        yield f"c04.l.forms {hx(a)} {hx(b)}"
+        yield f"c04.l.op_add {hx(a)} {hx(b)}"
+        yield f"c04.l.op_sub {hx(a)} {hx(b)}"
+    blens = [1, 2, 3, 4, 5, 8, 16, 17, 40] if tier == 'quick' else list(range(1, 41))
+    for na in blens:
+        others = sorted({na, 1, 2, max(1, na - 1), na + 1}) if tier == 'quick' else blens[::4] + [na, na + 1]
+        for nb in others:
+            k = min(na, nb)
+            ma, mb = 1 << (64 * na), 1 << (64 * nb)
+            ps = [(ma - 1, 1), (ma - 1, mb - 1), (0, 1), (0, 0), (1, mb - 1), (ma - 1, 0), (0, mb - 1),
+                  (ma // 2, mb // 2), ((1 << (64 * k)) - 1, 1), (5, 1 << (64 * k) if k < nb else 5), (1 << (64 * k) if k < na else 7, 9)]
+            for _ in range(4 if tier == 'quick' else 10):
+                ps.append((value(rng, na), value(rng, nb)))
+                a, b = pair(rng, k)
+                ps.append((a, b))
+            for a, b in ps:
+                a %= ma; b %= mb
+                for c in rng.sample([0, 1, 2, WMAX], 2):
+                    yield f"c04.b.adc {na} {hx(a)} {nb} {hx(b)} {hx(c)}"
+                    yield f"c04.b.sbb {na} {hx(a)} {nb} {hx(b)} {hx(c)}"
+                for op in ("forms", "op_add", "op_sub", "add_assign", "sub_assign", "wrapping_assign"):
+                    yield f"c04.b.{op} {na} {hx(a)} {nb} {hx(b)}"
